@@ -24,3 +24,16 @@ class D(types.DataClass):
 class V(types.Immutable, version=3):
     def __init__(self, a):
         self.a = a
+
+
+# subclasses with the signature of their base: equal arguments, another class - never the same object, never the same hash
+class P2(P):
+    pass
+
+
+class S2(S):
+    pass
+
+
+class D2(D):
+    pass
